@@ -19,4 +19,41 @@ theorem streamBody_eq (chunk : Nat) (hc : 0 < chunk) (s : Stream) : streamBody c
   unfold streamBody
   exact chunksFrom_flatten chunk hc _ _ (by simp [List.length_drop]; omega)
 
+/-! retried streamed uploads -/
+
+theorem take_flatten_prefix (k : Nat) (l : List Bytes) : (l.take k).flatten <+: l.flatten := by
+  refine ⟨(l.drop k).flatten, ?_⟩
+  rw [← List.flatten_append, List.take_append_drop]
+
+theorem streamParts_flatten (chunk : Nat) (hc : 0 < chunk) (s : Stream) : (streamParts chunk s).flatten = s.data.drop s.pos :=
+  streamBody_eq chunk hc s
+
+/-- under a policy that rewinds to 0 after EVERY class of failure, every attempt offers the whole content and what the
+service received of an attempt is a prefix of it — whatever the faults were and however many parts each had pulled -/
+theorem attemptsWith_rewinding (rew : FaultClass → Bool) (hrew : ∀ k, rew k = true) (d data : Bytes) (length chunk : Nat)
+    (hc : 0 < chunk) : ∀ (faults : List Fault) (s : Stream), s.data = data → s.pos = 0 →
+      ∀ a ∈ attemptsWith rew 0 d length chunk faults s, a.put = ⟨d, length, data⟩ ∧ a.sent <+: data
+  | [], s, hd, hp, a, ha => by
+    have hb : streamBody chunk s = data := by rw [streamBody_eq chunk hc, hp, hd]; rfl
+    simp only [attemptsWith, List.mem_singleton] at ha
+    subst ha
+    simp [hb]
+  | f :: fs, s, hd, hp, a, ha => by
+    have hb : streamBody chunk s = data := by rw [streamBody_eq chunk hc, hp, hd]; rfl
+    simp only [attemptsWith, List.mem_cons] at ha
+    rcases ha with ha | ha
+    · subst ha
+      refine ⟨by simp [hb], ?_⟩
+      have := take_flatten_prefix f.pulled (streamParts chunk s)
+      rw [streamParts_flatten chunk hc, hp, hd] at this
+      exact this
+    · refine attemptsWith_rewinding rew hrew d data length chunk hc fs _ ?_ ?_ a ha
+      · simp [afterFaultWith, hrew, hd]
+      · simp [afterFaultWith, hrew]
+
+theorem attemptsWith_length (rew : FaultClass → Bool) (to : Nat) (d : Bytes) (length chunk : Nat) :
+    ∀ (faults : List Fault) (s : Stream), (attemptsWith rew to d length chunk faults s).length = faults.length + 1
+  | [], _ => rfl
+  | f :: fs, s => by simp [attemptsWith, attemptsWith_length rew to d length chunk fs]
+
 end Replicat.SigV4
